@@ -31,6 +31,7 @@ _Bool __CPROVER_uninterpreted_prodok(int64_t, int64_t, int64_t, int64_t);
 #define NV_DIMS4(f, d) f((d)[0], 0, 0, 0)
 #define NV_SIZE_OF(d) ((d)[0])
 #define NV_EXACT_OF(d) ((d)[0] >= 0)
+#define NV_NONNEG(d) ((d)[0] >= 0)
 #elif NV_RANK == 2
 #define NV_DIMS4(f, d) f((d)[0], (d)[1], 0, 0)
 #define NV_NONNEG(d) ((d)[0] >= 0 && (d)[1] >= 0)
@@ -48,8 +49,31 @@ _Bool __CPROVER_uninterpreted_prodok(int64_t, int64_t, int64_t, int64_t);
 #define NV_EXACT_OF(d) (NV_NONNEG(d) && NV_DIMS4(__CPROVER_uninterpreted_prodok, d))
 #endif
 
+/* int64 products and quotients of the extracted code (spec.py: int_muldiv_hook) are uninterpreted apart from the trivial
+ * cases; nv_idiv carries the definedness obligation of the division. */
+int64_t __CPROVER_uninterpreted_imul(int64_t, int64_t);
+int64_t __CPROVER_uninterpreted_idiv(int64_t, int64_t);
+static int64_t nv_imul(int64_t a, int64_t b)
+{
+  if (a == 1) return b;
+  if (b == 1) return a;
+  if (a == 0 || b == 0) return 0;
+  return __CPROVER_uninterpreted_imul(a, b);
+}
+static int64_t nv_idiv(int64_t a, int64_t b)
+{
+  __CPROVER_assert(b != 0 && !(a == INT64_MIN && b == -1), "C15 integer division is defined (non-zero divisor, no INT64_MIN / -1)");
+  return __CPROVER_uninterpreted_idiv(a, b);
+}
+#define NV_M (INT64_MAX / NV_SZ)      /* the reader's max_size */
+
 /* ASSUMED contract of tensor_vector_storage_t::resize(dims):  m_dims = dims; m_data.resize(nano::size(dims)).
- *  - ghost nv_size_exact records "every dimension >= 0 and no overflow", in which case the size is not negative.
+ *  - ghost nv_size_exact records "every dimension >= 0 and the product fits int64", in which case nano::size(dims) is that
+ *    product (two's complement: also when an intermediate product of nano::size's right-to-left evaluation wraps, which
+ *    after the repair needs a zero dimension in front of huge ones -- formally undefined behaviour, reported) and >= 0.
+ *  - ARITHMETIC LEMMA (proved by the SMT VCs lemma/guard_rank*, instantiated here on the terms the reader's own guard
+ *    loop builds): if the dims pass  d_k >= 0 and not (d_k > 0 and t_k > M / d_k)  with  t_0 = 1, t_{k+1} = t_k * d_k,
+ *    then no t_k overflows, the product is exact, equals t_rank and is <= M.
  *  - Eigen's resize throws std::bad_alloc when size * sizeof(scalar) exceeds the address space or when the allocation
  *    fails (may always happen).  A negative size is *not* rejected in a release build (eigen_assert is compiled out
  *    under NDEBUG; without NDEBUG it aborts the process): the block is released and data() becomes null.
@@ -59,9 +83,25 @@ static void nv_tensor_resize(struct nv_tensor* t, const struct nv_dims* dims)
   int64_t p = NV_SIZE_OF(dims->d);
   _Bool exact = NV_EXACT_OF(dims->d);
   if (exact) __CPROVER_assume(p >= 0);
+  {
+    _Bool g = 1; int64_t run = 1;
+#define NV_GSTEP(k) if (!(dims->d[k] >= 0 && !(dims->d[k] > 0 && run > __CPROVER_uninterpreted_idiv(NV_M, dims->d[k])))) g = 0; run = nv_imul(run, dims->d[k]);
+    NV_GSTEP(0)
+#if NV_RANK >= 2
+    NV_GSTEP(1)
+#endif
+#if NV_RANK >= 3
+    NV_GSTEP(2)
+#endif
+#if NV_RANK >= 4
+    NV_GSTEP(3)
+#endif
+    if (g) __CPROVER_assume(exact && p == run && p <= NV_M);
+  }
   t->m_dims = *dims;
   t->size = p;
   nv_size_exact = exact;
+  nv_resizes = nv_resizes + 1;
   if (p > NV_MAXALLOC / NV_SZ || nv_nondet__Bool()) { nv_thrown = 1; t->data = NULL; return; }
   if (p <= 0) { t->data = NULL; return; }
   t->data = (NV_SCALAR*)malloc((size_t)p * sizeof(NV_SCALAR));
@@ -81,36 +121,20 @@ static int64_t nv_tensor_size(const struct nv_tensor* t) { return t->size; }
 /* accepted and (consequence of postcondition 3 "consumed") the whole header lies inside the supplied bytes */
 #define NV_ACC_HDR (NV_ACCEPTED && NV_P0 + NV_HDR <= stream->len)
 
-/* the int32 dimension k stored in the header that starts at the current position */
-#define NV_D(k) NV_I32LE(stream, stream->pos + 8 + 4 * (k))
-/* WELL-FORMED HEADER DIMENSIONS: the stored dimensions are non-negative and nano::size of them does not overflow, i.e.
- * they are the dimensions of a tensor object that can exist.  Every stream the property quantifies over except header
- * corruptions satisfies it: a strict prefix of a valid stream and a valid stream with altered payload bytes carry the
- * dims that write() stored for a live tensor.  Streams that violate it are the business of tensor_read_dims_*. */
-#if NV_RANK == 1
-#define NV_WF_DIMS (NV_D(0) >= 0)
-#elif NV_RANK == 2
-#define NV_WF_DIMS (NV_D(0) >= 0 && NV_D(1) >= 0 && __CPROVER_uninterpreted_prodok(NV_D(0), NV_D(1), 0, 0))
-#elif NV_RANK == 3
-#define NV_WF_DIMS (NV_D(0) >= 0 && NV_D(1) >= 0 && NV_D(2) >= 0 && __CPROVER_uninterpreted_prodok(NV_D(0), NV_D(1), NV_D(2), 0))
-#elif NV_RANK == 4
-#define NV_WF_DIMS (NV_D(0) >= 0 && NV_D(1) >= 0 && NV_D(2) >= 0 && NV_D(3) >= 0 && __CPROVER_uninterpreted_prodok(NV_D(0), NV_D(1), NV_D(2), NV_D(3)))
-#endif
-
 #define NV_TENSOR_READ_REQUIRES \
 __CPROVER_requires(NV_IS_OK(stream) && __CPROVER_is_fresh(tensor, sizeof(struct nv_tensor))) \
-__CPROVER_requires(nv_nfields == 0 && nv_k < NV_RANK)
+__CPROVER_requires(nv_nfields == 0 && nv_resizes == 0 && nv_k < NV_RANK)
 #define NV_TENSOR_READ_ASSIGNS \
 __CPROVER_assigns(stream->pos, stream->fail, *tensor, nv_thrown, nv_gh)
 
-#define NV_CONTRACT_tensor_read NV_TENSOR_READ_REQUIRES __CPROVER_requires(NV_WF_DIMS) NV_TENSOR_READ_ASSIGNS \
+#define NV_CONTRACT_tensor_read NV_TENSOR_READ_REQUIRES NV_TENSOR_READ_ASSIGNS \
 /* 1 failure is sticky: a stream that had failed is never reported good */ \
 __CPROVER_ensures(__CPROVER_old(stream->fail) ==> stream->fail) \
 /* 2 the get position stays inside the supplied bytes and never moves back */ \
 __CPROVER_ensures(NV_P0 <= stream->pos && stream->pos <= stream->len) \
 /* 3 consumed: accepted => exactly header + size*sizeof(scalar) bytes were consumed, all of them supplied (so every strict \
  *   prefix of an accepted stream is rejected: lemma VC prefix_*), the size is nano::size of the stored dims, exact and >= 0 */ \
-__CPROVER_ensures(NV_ACCEPTED ==> (tensor->size >= 0 && nv_size_exact && tensor->size == NV_SIZE_OF(tensor->m_dims.d) && stream->pos == NV_P0 + NV_HDR + NV_SZ * tensor->size && stream->pos <= stream->len)) \
+__CPROVER_ensures(NV_ACCEPTED ==> (tensor->size >= 0 && tensor->size <= NV_M && nv_size_exact && tensor->size == NV_SIZE_OF(tensor->m_dims.d) && stream->pos == NV_P0 + NV_HDR + NV_SZ * tensor->size && stream->pos <= stream->len)) \
 /* 4-6 every header field was validated against the stream content */ \
 __CPROVER_ensures(NV_ACC_HDR ==> NV_LE32(stream, NV_P0) == 0) \
 __CPROVER_ensures(NV_ACC_HDR ==> NV_LE32(stream, NV_P0 + 4) == NV_RANK) \
@@ -126,13 +150,20 @@ __CPROVER_ensures(NV_ACCEPTED ==> (nv_nfields == NV_NFIELDS && (nv_g < NV_NFIELD
 /* 11 the length of the stream is not touched (also by the assigns clause) */ \
 __CPROVER_ensures(stream->len == __CPROVER_old(stream->len)) \
 /* 12 a short stream is rejected whatever it contains */ \
-__CPROVER_ensures((__CPROVER_old(stream->len) - NV_P0 < NV_HDR) ==> (nv_thrown || stream->fail))
+__CPROVER_ensures((__CPROVER_old(stream->len) - NV_P0 < NV_HDR) ==> (nv_thrown || stream->fail)) \
+/* 13 (repair 81b3596) the reader validates the dimensions ITSELF: the tensor is resized at most once and only to dimensions \
+ *    that are all >= 0 with an exact product whose byte count does not overflow; otherwise the tensor is left untouched */ \
+__CPROVER_ensures(nv_resizes <= 1 && (nv_resizes == 1 ==> (nv_size_exact && NV_NONNEG(tensor->m_dims.d) && tensor->size <= NV_M))) \
+__CPROVER_ensures(nv_resizes == 0 ==> (tensor->size == __CPROVER_old(tensor->size) && tensor->data == __CPROVER_old(tensor->data) && tensor->m_dims.d[nv_k] == __CPROVER_old(tensor->m_dims.d[nv_k]))) \
+/* 15 a complete header holding a negative dimension (ghost index) is rejected without touching the tensor */ \
+__CPROVER_ensures((__CPROVER_old(stream->len) - NV_P0 >= NV_HDR && !__CPROVER_old(stream->fail) && NV_I32LE(stream, NV_P0 + 8 + 4 * (int64_t)nv_k) < 0) ==> (stream->fail && nv_resizes == 0))
 
-/* dimension validation, NO well-formedness assumption (separate target tensor_read_dims_*): accepted => every dimension is
- * non-negative and size() is their exact product; together with the obligations asserted in the istream::read stub
- * ("a negative / overflowing dimension never reaches the payload read with a bogus size") */
+/* dimension validation (separate target tensor_read_dims_*; FAILED before the repair 81b3596, kept to pin it): accepted =>
+ * every dimension is non-negative and size() is their exact product; together with the obligations asserted in the
+ * istream::read stub ("a negative / overflowing dimension never reaches the payload read with a bogus size") */
 #define NV_CONTRACT_tensor_read_dims NV_TENSOR_READ_REQUIRES NV_TENSOR_READ_ASSIGNS \
-__CPROVER_ensures(NV_ACCEPTED ==> nv_size_exact)
+__CPROVER_ensures(NV_ACCEPTED ==> (nv_size_exact && NV_NONNEG(tensor->m_dims.d) && tensor->size >= 0)) \
+__CPROVER_ensures(nv_resizes <= 1 && (nv_resizes == 1 ==> (nv_size_exact && NV_NONNEG(tensor->m_dims.d) && tensor->size <= NV_M)))
 
 /* ================================================================ writer: nano::write(std::ostream&, const tensor_t&) */
 #define NV_I32DIM(x) (0 <= (x) && (x) <= 2147483647LL)
@@ -149,11 +180,11 @@ __CPROVER_ensures(NV_ACCEPTED ==> nv_size_exact)
 #define NV_FMT_VAL(g, t, cid) ((g) == 0 ? 0 : (g) == 1 ? NV_RANK : (g) < 2 + NV_RANK ? (uint64_t)(t)->m_dims.d[(g) - 2] : (g) == 2 + NV_RANK ? (uint64_t)NV_SZ \
   : ((t)->size > 0 ? NV_HASH(cid, (t)->size) : 0))
 /* a live tensor object: dims >= 0, size() >= 0 scalars allocated at data(); the block's content has ghost identity nv_c_id.
- * STATED PRECONDITION (DESIGN C15): every dimension fits the int32 the format stores it in (write_cast<int32_t> narrows
- * silently; outside this range the written header is not the tensor's -- see `assumptions`). */
+ * Since the repair c547eaf the writer itself refuses a dimension that does not fit the int32 the format stores it in
+ * (before: write_cast<int32_t> narrowed silently): no precondition on the magnitude of the dims any more. */
 #define NV_CONTRACT_tensor_write \
 __CPROVER_requires(NV_OS_OK(stream) && __CPROVER_is_fresh(tensor, sizeof(struct nv_tensor))) \
-__CPROVER_requires(NV_DIMS_I32(tensor->m_dims.d) && 0 <= tensor->size && tensor->size <= NV_MAXALLOC / NV_SZ) \
+__CPROVER_requires(NV_NONNEG(tensor->m_dims.d) && 0 <= tensor->size && tensor->size <= NV_MAXALLOC / NV_SZ) \
 __CPROVER_requires(tensor->size == 0 || (__CPROVER_is_fresh(tensor->data, NV_SZ * tensor->size) && nv_c_ptr == tensor->data && nv_c_n == NV_SZ * tensor->size)) \
 __CPROVER_requires(nv_nfields == 0) \
 __CPROVER_assigns(stream->pos, stream->fail, nv_gh) \
@@ -167,11 +198,17 @@ __CPROVER_ensures(!stream->fail ==> (nv_nfields == NV_NFIELDS && (nv_g < NV_NFIE
 __CPROVER_ensures((!stream->fail && nv_g < NV_NFIELDS - 1) ==> nv_f_val == NV_FMT_VAL(nv_g, tensor, __CPROVER_old(nv_c_id))) \
 __CPROVER_ensures((!stream->fail && nv_g == NV_NFIELDS - 1 && tensor->size > 0) ==> nv_f_cid == __CPROVER_old(nv_c_id)) \
 /* 5 the content identity is still the tensor's (nothing else was transferred) */ \
-__CPROVER_ensures(nv_c_id == __CPROVER_old(nv_c_id) && nv_c_ptr == __CPROVER_old(nv_c_ptr) && nv_c_n == __CPROVER_old(nv_c_n))
+__CPROVER_ensures(nv_c_id == __CPROVER_old(nv_c_id) && nv_c_ptr == __CPROVER_old(nv_c_ptr) && nv_c_n == __CPROVER_old(nv_c_n)) \
+/* 6 (repair c547eaf) a dimension that does not fit the 32-bit header field => failure and NOTHING written; \
+ *   success => every dimension fits (so field 2+k IS the dimension, postcondition 4) */ \
+__CPROVER_ensures(!NV_DIMS_I32(tensor->m_dims.d) ==> (stream->fail && stream->pos == NV_OP0 && nv_nfields == 0)) \
+__CPROVER_ensures(!stream->fail ==> NV_DIMS_I32(tensor->m_dims.d)) \
+/* 8 ... and dimensions that do fit are not refused by that guard: the first field is attempted */ \
+__CPROVER_ensures((NV_DIMS_I32(tensor->m_dims.d) && !__CPROVER_old(stream->fail)) ==> nv_nfields >= 1)
 
-/* the same writer WITHOUT the stated "every dim fits int32" precondition (target tensor_write_dims_*): a live tensor whose
- * dimension is >= 2^31 must not be written with a header that is not its own.  The obligation that fails is the
- * conversion check on write_cast's static_cast<int32_t>(data[i]). */
+/* target tensor_write_dims_* (FAILED before the repair c547eaf, kept to pin it): a live tensor whose dimension is >= 2^31 is
+ * never written with a header that is not its own: success => the dim field holds the dimension; the conversion check on
+ * write_cast's static_cast<int32_t>(data[i]) is discharged without any precondition on the magnitude of the dims */
 #if NV_RANK == 1
 #define NV_CONTRACT_tensor_write_dims \
 __CPROVER_requires(NV_OS_OK(stream) && __CPROVER_is_fresh(tensor, sizeof(struct nv_tensor))) \
@@ -179,6 +216,8 @@ __CPROVER_requires(0 <= tensor->m_dims.d[0] && tensor->size == tensor->m_dims.d[
 __CPROVER_requires(tensor->size == 0 || (__CPROVER_is_fresh(tensor->data, NV_SZ * tensor->size) && nv_c_ptr == tensor->data && nv_c_n == NV_SZ * tensor->size)) \
 __CPROVER_requires(nv_nfields == 0) \
 __CPROVER_assigns(stream->pos, stream->fail, nv_gh) \
-__CPROVER_ensures((!stream->fail && nv_g == 2) ==> nv_f_val == (uint64_t)tensor->m_dims.d[0])
+__CPROVER_ensures((!stream->fail && nv_g == 2) ==> nv_f_val == (uint64_t)tensor->m_dims.d[0]) \
+__CPROVER_ensures((tensor->m_dims.d[0] > 2147483647LL) ==> (stream->fail && stream->pos == __CPROVER_old(stream->pos) && nv_nfields == 0)) \
+__CPROVER_ensures((tensor->m_dims.d[0] <= 2147483647LL && !__CPROVER_old(stream->fail)) ==> nv_nfields >= 1)
 #endif
 #endif
